@@ -1,7 +1,8 @@
 (* C14 -- CL03 blind issuance.  Proved: gating (blind_sign returns only if verify_proof returned true; otherwise the Rust
    code panics = refusal), the unblinded signature's components, and completeness of the two-secret sigma protocol that
-   carries each hidden attribute and the commitment randomness.  Completeness of the whole issuance flow for every hidden
-   set, and rejection of mismatching / edited proofs: correspondence + sweep (all non-empty U for n <= 3 / 5). *)
+   carries each hidden attribute and the commitment randomness, of the multi-secret protocol (proof_commited_msgs) for every
+   hidden set U, and of the two-commitment protocol (trusted-party commitment).  The Boudot range proofs inside the issuance
+   proof and rejection of mismatching / edited proofs: correspondence + sweep (all non-empty U for n <= 3 / 5). *)
 From ZK Require Import Cl ClArith ClSig ClMore.
 
 Theorem C14_cl_blind_sign_gated :
@@ -36,3 +37,47 @@ Check (C14_nisp2sec_complete :
   nisp2sec_gen CS m c g h n ds = Ok (p, ds') ->
   nisp2sec_verify p c g h n = Ok true).
 Print Assumptions C14_nisp2sec_complete.
+
+(* proof_commited_msgs: for C = prod_{i in U} a_i^{m_i} * b^r mod N the multi-secret proof verifies (every U, any draws >= 0) *)
+Theorem C14_nispm_complete :
+  forall CS msgs c pk bases U ds p ds',
+  (0 < pk_N pk)%Z -> (length msgs <> 1)%nat -> (0 <= c_rand c)%Z ->
+  (forall i, In i U -> (0 <= nth (N.to_nat i) msgs 1)%Z) ->
+  c_value c = ((pprod bases (map (fun i => nth (N.to_nat i) msgs 1%Z) U) U * pk_b pk ^ c_rand c) mod pk_N pk)%Z ->
+  Forall (fun d => (0 <= d_val d)%Z) ds ->
+  nispm_gen CS msgs c pk bases (Some U) ds = Ok (p, ds') ->
+  nispm_verify p c pk bases (Some U) = Ok true.
+Proof. exact nispm_complete. Qed.
+Check (C14_nispm_complete :
+  forall CS msgs c pk bases U ds p ds',
+  (0 < pk_N pk)%Z -> (length msgs <> 1)%nat -> (0 <= c_rand c)%Z ->
+  (forall i, In i U -> (0 <= nth (N.to_nat i) msgs 1)%Z) ->
+  c_value c = ((pprod bases (map (fun i => nth (N.to_nat i) msgs 1%Z) U) U * pk_b pk ^ c_rand c) mod pk_N pk)%Z ->
+  Forall (fun d => (0 <= d_val d)%Z) ds ->
+  nispm_gen CS msgs c pk bases (Some U) ds = Ok (p, ds') ->
+  nispm_verify p c pk bases (Some U) = Ok true).
+Print Assumptions C14_nispm_complete.
+
+(* proof_C_Ctrusted: C (signer's bases) and C_trusted (trusted party's bases) commit to the same hidden attributes *)
+Theorem C14_nisp2_complete :
+  forall CS msgs c1 c2 pk bases ck U ds p ds',
+  (0 < pk_N pk)%Z -> (0 < ck_N ck)%Z -> (0 <= c_rand c1)%Z -> (0 <= c_rand c2)%Z ->
+  (forall j, In j U -> (0 <= nth (N.to_nat j) msgs 1)%Z) ->
+  (c_value c1 mod pk_N pk = (pprod bases (map (fun j => nth (N.to_nat j) msgs 1%Z) U) U * pk_b pk ^ c_rand c1) mod pk_N pk)%Z ->
+  (c_value c2 mod ck_N ck = (pprod (ck_g ck) (map (fun j => nth (N.to_nat j) msgs 1%Z) U) U * ck_h ck ^ c_rand c2) mod ck_N ck)%Z ->
+  Forall (fun d => (0 <= d_val d)%Z) ds ->
+  nisp2_gen CS msgs c1 c2 pk bases ck U ds = Ok (p, ds') ->
+  invert (c_value c1) (pk_N pk) <> None -> invert (c_value c2) (ck_N ck) <> None ->
+  nisp2_verify p c1 c2 pk bases ck U = Ok true.
+Proof. exact nisp2_complete. Qed.
+Check (C14_nisp2_complete :
+  forall CS msgs c1 c2 pk bases ck U ds p ds',
+  (0 < pk_N pk)%Z -> (0 < ck_N ck)%Z -> (0 <= c_rand c1)%Z -> (0 <= c_rand c2)%Z ->
+  (forall j, In j U -> (0 <= nth (N.to_nat j) msgs 1)%Z) ->
+  (c_value c1 mod pk_N pk = (pprod bases (map (fun j => nth (N.to_nat j) msgs 1%Z) U) U * pk_b pk ^ c_rand c1) mod pk_N pk)%Z ->
+  (c_value c2 mod ck_N ck = (pprod (ck_g ck) (map (fun j => nth (N.to_nat j) msgs 1%Z) U) U * ck_h ck ^ c_rand c2) mod ck_N ck)%Z ->
+  Forall (fun d => (0 <= d_val d)%Z) ds ->
+  nisp2_gen CS msgs c1 c2 pk bases ck U ds = Ok (p, ds') ->
+  invert (c_value c1) (pk_N pk) <> None -> invert (c_value c2) (ck_N ck) <> None ->
+  nisp2_verify p c1 c2 pk bases ck U = Ok true).
+Print Assumptions C14_nisp2_complete.
